@@ -159,6 +159,28 @@ theorem placement_ignores_input_node (half : β) (child : Array Nat) (bedges : A
   rw [h1, h2, h3, h4]
   exact ⟨rfl, rfl⟩
 
+/-- **Mechanism of the known finding `stacked-singletons-order-follows-input-rows`** (tsdate's half of it):
+the switch treats every blocked mutation on its own, so two singletons of one block — in particular two different
+singletons of one individual at the *same site* — whose fitted phases lie on the same side of the threshold are
+written to the *same* node.  Which of two mutations stacked on one node at one site is the older one is then
+decided by their row order (`get_modified_ts` keeps it; tskit contract), and the canonical row order of the two
+rows differs between re-phasings of the input. -/
+theorem same_side_singletons_are_stacked (half : β) (child : Array Nat) (bedges : Array (Nat × Nat))
+    (mblock : List (Option Nat)) (f : Fit β) (m m' b : Nat) (φ φ' : β) (olde olde' : Option Nat) (oldn oldn' : Nat)
+    (hb : mblock[m]? = some (some b)) (hb' : mblock[m']? = some (some b))
+    (hφ : f.phase[m]? = some (some φ)) (hφ' : f.phase[m']? = some (some φ'))
+    (he : f.mutEdge[m]? = some olde) (hn : f.mutNode[m]? = some oldn)
+    (he' : f.mutEdge[m']? = some olde') (hn' : f.mutNode[m']? = some oldn')
+    (hside : (φ < half ↔ φ' < half)) :
+    (place half child bedges mblock f).mutNode[m]? = (place half child bedges mblock f).mutNode[m']? := by
+  obtain ⟨_, h2, _, _⟩ := place_forward half child bedges mblock f m (some b) (some φ) olde oldn hb hφ he hn
+  obtain ⟨_, h4, _, _⟩ := place_forward half child bedges mblock f m' (some b) (some φ') olde' oldn' hb' hφ' he' hn'
+  rw [h2, h4]
+  simp only [placeOne, placedEdge]
+  by_cases h : φ < half
+  · rw [if_pos h, if_pos (hside.mp h)]
+  · rw [if_neg h, if_neg (fun h' => h (hside.mpr h'))]
+
 /-- **`singletons_phased=True` ⇒ no blocks.**  With no individual flagged unphased the kernel returns no
 blocks and `mutations_block` is NULL everywhere. -/
 theorem phased_no_blocks (inp : Input α) (zero : α) (out : Output α)
